@@ -239,3 +239,24 @@ EXTRA = {
 for _pid, _txt in EXTRA.items():
     if _pid in CHECKS and _txt not in CHECKS[_pid]['text']:
         CHECKS[_pid]['text'] += _txt
+
+# additions after the fourth round of seeded changes
+EXTRA4 = {
+    'C02': ' Operands next to their own lazy (generic) transpose (index with repeats, broadcast diagonal): A @ A.T is not the identity.',
+    'C06': ' A diagonal whose entries are seven orders of magnitude apart (2^-12, 2^12) must be inverted entry by entry.',
+    'C11': ' Leaves of rank 0 (a scalar leaf alone or next to an array) are part of the bounded domain.',
+    'C12': ' Integer index arrays are replayed in every integer dtype that can hold them (signed and unsigned); an all-True mask '
+           'of rank 2 and reduce() of the pack operator are covered.',
+    'C14': ' The valid strings are replayed once more on int32 leaves with half-integer float32 blocks (mv only: promotion).',
+    'C17': ' world2index is also compared with healpy at the centres of equatorial-belt pixels beyond 2^24 (nside 2048, 4096) in '
+           'both precision modes; constant-elevation samplings (scalar theta) are part of the coverage replay.',
+    'C18': ' In a fresh process the jitted application comes first for every Toeplitz method (and a few other classes), then '
+           'eager / second jit / unflattened copy / as_matrix; one filtering jit is shared by lazy inverses that differ only in '
+           'captured solver options / solvers.',
+    'C19': ' FxConfig also models Config objects built earlier and entered later (Prebuild / EnterPre); the inverted operator is a '
+           'composite and every application also goes through (2 * inv).reduce() (clauses captured_after_reduce, '
+           'callback_used_after_reduce).',
+}
+for _pid, _txt in EXTRA4.items():
+    if _pid in CHECKS and _txt not in CHECKS[_pid]['text']:
+        CHECKS[_pid]['text'] += _txt
